@@ -905,6 +905,13 @@ theorem answerClass_exact_nodata {z : Zone} (hz : z.WF) {a : Node} (ha : a ∈ z
   exact answerAt_nodata a t h1 h2
 
 
+theorem InGap.not_ent {z : Zone} (hz : z.WF) {o n q : Name} (gap : InGap z o n q) (hq : z.apex <+: q)
+    (hsub : isStrictSub n q = false) : z.isENT q = false := by
+  cases he : z.isENT q with
+  | false => rfl
+  | true => rw [(gap.isENT_iff hz hq).mp he] at hsub; cases hsub
+
+
 /-! ### F. the exact validators over genuine records -/
 
 /-- the record sets the property quantifies over: any sub-multiset of the
@@ -946,16 +953,19 @@ theorem InGap.wild_in_zone {z : Zone} (hz : z.WF) {o n q : Name} (h : InGap z o 
     z.apex <+: q.take (ceK q o n) ++ [star] := by
   exact (apex_prefix_take hq (h.ce_bounds hz hq).1).trans (List.prefix_append _ _)
 
-/-- **`VerifyNameErrorNSEC` over genuine records**, under the two record-level
-conditions the function does not test (RFC 6840 §4.1 ancestor delegation /
-DNAME, and the RFC 8198 App. B empty-non-terminal shape). -/
+theorem nsecMisusedFor_false {r : Nsec} {name : Name} (h : nsecMisusedFor r name = false) :
+    ¬(isStrictSub name r.owner = true ∧ cutTypes r.types = true) := by
+  rintro ⟨h1, h2⟩
+  unfold nsecMisusedFor at h
+  rw [cutBitmap_eq, h1, h2] at h
+  cases h
+
+/-- **`VerifyNameErrorNSEC` over genuine records** (full strength; the
+function itself now refuses a covering record that is an ancestor delegation
+/ DNAME of the name or whose next name lies below it, RFC 6840 §4.1 and
+RFC 8198 App. B). -/
 theorem nameError_core {z : Zone} (hz : z.WF) (hroot : z.apex ≠ []) {s : List Nsec}
     (hg : ∀ r ∈ s, Genuine z r) {q : Name} (hq : z.apex <+: q)
-    (hmis : ∀ r ∈ s, nsecCovers r.owner r.next q = true →
-      ¬(isStrictSub q r.owner = true ∧ cutTypes r.types = true) ∧ isStrictSub r.next q = false)
-    (hmisw : ∀ c ∈ s, nsecCovers c.owner c.next q = true → ∀ r ∈ s,
-      nsecCovers r.owner r.next (closestEncloserFromNSEC q c ++ [star]) = true →
-      isStrictSub r.next (closestEncloserFromNSEC q c ++ [star]) = false)
     (t : Nat) (hok : verifyNameErrorNSEC q s = .ok ()) : z.answerClass q t = .nxdomain := by
   unfold verifyNameErrorNSEC at hok
   split at hok
@@ -964,45 +974,52 @@ theorem nameError_core {z : Zone} (hz : z.WF) (hroot : z.apex ≠ []) {s : List 
     · cases hok
     · rename_i c hfind
       have hcm := List.mem_of_find?_eq_some hfind
-      have hcc : nsecCovers c.owner c.next q = true := List.find?_some (p := fun (r : Nsec) => nsecCovers r.owner r.next q) hfind
-      have gap := covers_inGap hz (hg c hcm) hq hcc
-      have hce : z.closestEncloser q = closestEncloserFromNSEC q c := by
-        rw [closestEncloserFromNSEC_eq]; exact gap.closestEncloser hz hq
-      have hwz : z.apex <+: closestEncloserFromNSEC q c ++ [star] := by
-        rw [closestEncloserFromNSEC_eq]; exact gap.wild_in_zone hz hq
-      have hcene : closestEncloserFromNSEC q c ≠ [] := by
-        intro e
-        have := apex_prefix_take hq (gap.ce_bounds hz hq).1
-        rw [← closestEncloserFromNSEC_eq, e] at this
-        exact hroot (List.prefix_nil.mp this)
-      simp only [hcene, if_false] at hok
+      have hcc : nsecCovers c.owner c.next q = true :=
+        List.find?_some (p := fun (r : Nsec) => nsecCovers r.owner r.next q) hfind
       split at hok
-      · rename_i hany
-        obtain ⟨r, hr, hrc⟩ := List.any_eq_true.mp hany
-        have gapw := covers_inGap hz (hg r hr) hwz hrc
-        have hm := hmis c hcm hcc
-        -- q is not below a cut
-        have hocc : z.occluded q = false := by
-          cases ho : z.occluded q with
-          | false => rfl
-          | true =>
-            exfalso
-            obtain ⟨a, ha, han, hcut, hpre, hne⟩ := gap.occluded hz ho
-            have hty := (hg c hcm).types_of_node hz ha han
-            exact hm.1 ⟨(isStrictSub_iff q c.owner).mpr ⟨hpre, hne⟩, hty ▸ hcut⟩
-        have hent : z.isENT q = false := by
-          cases he : z.isENT q with
-          | false => rfl
-          | true => rw [(gap.isENT_iff hz hq).mp he] at hm; cases hm.2
-        have hwent : z.isENT (closestEncloserFromNSEC q c ++ [star]) = false := by
-          cases he : z.isENT (closestEncloserFromNSEC q c ++ [star]) with
-          | false => rfl
-          | true =>
-            have := hmisw c hcm hcc r hr hrc
-            rw [(gapw.isENT_iff hz hwz).mp he] at this; cases this
-        exact answerClass_nxdomain z q t hq (gap.ne_apex hz) hocc gap.find_none hent
-          (hce ▸ gapw.find_none) (hce ▸ hwent)
       · cases hok
+      · rename_i hmisq
+        split at hok
+        · cases hok
+        · rename_i hentq
+          have gap := covers_inGap hz (hg c hcm) hq hcc
+          have hce : z.closestEncloser q = closestEncloserFromNSEC q c := by
+            rw [closestEncloserFromNSEC_eq]; exact gap.closestEncloser hz hq
+          have hwz : z.apex <+: closestEncloserFromNSEC q c ++ [star] := by
+            rw [closestEncloserFromNSEC_eq]; exact gap.wild_in_zone hz hq
+          have hcene : closestEncloserFromNSEC q c ≠ [] := by
+            intro e
+            have := apex_prefix_take hq (gap.ce_bounds hz hq).1
+            rw [← closestEncloserFromNSEC_eq, e] at this
+            exact hroot (List.prefix_nil.mp this)
+          simp only [hcene, if_false] at hok
+          split at hok
+          · cases hok
+          · rename_i r hrfind
+            have hr := List.mem_of_find?_eq_some hrfind
+            have hrc : nsecCovers r.owner r.next (closestEncloserFromNSEC q c ++ [star]) = true :=
+              List.find?_some (p := fun (r : Nsec) => nsecCovers r.owner r.next (closestEncloserFromNSEC q c ++ [star])) hrfind
+            split at hok
+            · cases hok
+            · split at hok
+              · cases hok
+              · rename_i hentw
+                have gapw := covers_inGap hz (hg r hr) hwz hrc
+                have hmis := nsecMisusedFor_false (by simpa using hmisq)
+                have hocc : z.occluded q = false := by
+                  cases ho : z.occluded q with
+                  | false => rfl
+                  | true =>
+                    exfalso
+                    obtain ⟨a, ha, han, hcut, hpre, hne⟩ := gap.occluded hz ho
+                    have hty := (hg c hcm).types_of_node hz ha han
+                    exact hmis ⟨(isStrictSub_iff q c.owner).mpr ⟨hpre, hne⟩, hty ▸ hcut⟩
+                have hent : z.isENT q = false :=
+                  gap.not_ent hz hq (by unfold nsecProvesENT at hentq; simpa using hentq)
+                have hwent : z.isENT (closestEncloserFromNSEC q c ++ [star]) = false :=
+                  gapw.not_ent hz hwz (by unfold nsecProvesENT at hentw; simpa using hentw)
+                exact answerClass_nxdomain z q t hq (gap.ne_apex hz) hocc gap.find_none hent
+                  (hce ▸ gapw.find_none) (hce ▸ hwent)
 
 theorem nodataBitmap_ok {t : Nat} {b : List Nat} (h : nodataBitmap t b = .ok ()) :
     t ∉ b ∧ tCNAME ∉ b ∧ (t = tDS → tSOA ∉ b) := by
@@ -1020,12 +1037,35 @@ theorem nodataBitmap_ok {t : Nat} {b : List Nat} (h : nodataBitmap t b = .ok ())
       simp only [Bool.and_eq_true, decide_eq_true_eq]
       exact ⟨ht, (typesSet_iff b [tSOA]).mpr ⟨tSOA, hs, by simp⟩⟩
 
-/-- **`VerifyNODATANSEC` over genuine records**, under the one condition it
-does not test: the exact-owner record is not a delegation point's (RFC 6840
-§4.1) unless the question is DS. -/
+theorem nodataBitmapExact_ok {t : Nat} {b : List Nat} (h : nodataBitmapExact t b = .ok ()) :
+    t ∉ b ∧ tCNAME ∉ b ∧ (t = tDS → tSOA ∉ b) ∧ (t = tDS ∨ delegTypes b = false) := by
+  unfold nodataBitmapExact at h
+  split at h
+  · cases h
+  · rename_i h1
+    have h1' := (typesSet_pair_false b t tCNAME).mp (by simpa using h1)
+    split at h
+    · cases h
+    · rename_i h2
+      split at h
+      · cases h
+      · rename_i h3
+        refine ⟨h1'.1, h1'.2, ?_, ?_⟩
+        · intro ht hs
+          apply h2
+          simp only [Bool.and_eq_true, decide_eq_true_eq]
+          exact ⟨ht, (typesSet_iff b [tSOA]).mpr ⟨tSOA, hs, by simp⟩⟩
+        · by_cases ht : t = tDS
+          · exact Or.inl ht
+          · right
+            rw [← aggDeleg_eq]
+            simp only [Bool.and_eq_true, decide_eq_true_eq, not_and, Bool.not_eq_true] at h3
+            exact h3 ht
+
+/-- **`VerifyNODATANSEC` over genuine records** (full strength; the function
+itself now refuses a delegation point's record for any type but DS). -/
 theorem nodata_core {z : Zone} (hz : z.WF) {s : List Nsec}
     (hg : ∀ r ∈ s, Genuine z r) {q : Name} (hq : z.apex <+: q) (t : Nat)
-    (hdel : ∀ r ∈ s, r.owner = q → t = tDS ∨ delegTypes r.types = false)
     (hok : verifyNODATANSEC q t s = .ok ()) : z.answerClass q t = .nodata := by
   unfold verifyNODATANSEC at hok
   split at hok
@@ -1035,59 +1075,47 @@ theorem nodata_core {z : Zone} (hz : z.WF) {s : List Nsec}
       rename_i r hfind
       have hrm := List.mem_of_find?_eq_some hfind
       have hro : r.owner = q := by simpa using List.find?_some hfind
-      obtain ⟨h1, h2, h3⟩ := nodataBitmap_ok hok
+      obtain ⟨h1, h2, h3, h4⟩ := nodataBitmapExact_ok hok
       obtain ⟨a, ha, han, hat⟩ := (hg r hrm).node
-      have := answerClass_exact_nodata hz ha t (hat ▸ h1) (hat ▸ h2) (fun e => hat ▸ h3 e)
-        (hat ▸ hdel r hrm hro)
+      have := answerClass_exact_nodata hz ha t (hat ▸ h1) (hat ▸ h2) (fun e => hat ▸ h3 e) (hat ▸ h4)
       rwa [han, hro] at this
     · -- wildcard NODATA
       split at hok
       · cases hok
       · rename_i c hfind
         have hcm := List.mem_of_find?_eq_some hfind
-        have hcc : nsecCovers c.owner c.next q = true := List.find?_some (p := fun (r : Nsec) => nsecCovers r.owner r.next q) hfind
+        have hcc : nsecCovers c.owner c.next q = true :=
+          List.find?_some (p := fun (r : Nsec) => nsecCovers r.owner r.next q) hfind
         have gap := covers_inGap hz (hg c hcm) hq hcc
         have hce : z.closestEncloser q = closestEncloserFromNSEC q c := by
           rw [closestEncloserFromNSEC_eq]; exact gap.closestEncloser hz hq
-        simp only at hok
         split at hok
-        · rename_i w hwfind
-          have hwm := List.mem_of_find?_eq_some hwfind
-          have hwo : w.owner = closestEncloserFromNSEC q c ++ [star] := by simpa using List.find?_some hwfind
-          obtain ⟨h1, h2, _⟩ := nodataBitmap_ok hok
-          obtain ⟨a, ha, han, hat⟩ := (hg w hwm).node
-          have hfw : z.find (z.closestEncloser q ++ [star]) = some a := by
-            rw [hce, ← hwo, ← han]; exact find_of_mem hz ha
-          -- q is not below a cut: the wildcard owner would be occluded too
-          have hocc : z.occluded q = false := by
-            cases ho : z.occluded q with
-            | false => rfl
-            | true =>
-              exfalso
-              obtain ⟨cn, hcn, hcnn, hcut, hpre, hne⟩ := gap.occluded hz ho
-              have hlt := (gap.ce_bounds hz hq).2.1
-              have hge := gap.lcp_le_ceK
-              have hlo : c.owner.length ≤ lcp q c.owner :=
-                lcp_ge_of_common_prefix c.owner q c.owner hpre (List.prefix_refl _)
-              have hpw : c.owner <+: a.name := by
-                rw [han, hwo, closestEncloserFromNSEC_eq]
-                exact (List.prefix_take_iff.mpr ⟨hpre, by omega⟩).trans (List.prefix_append _ _)
-              have hnew : c.owner ≠ a.name := by
-                intro e
-                have : a.name.length = ceK q c.owner c.next + 1 := by
-                  rw [han, hwo, closestEncloserFromNSEC_eq, List.length_append, List.length_take]
-                  simp; omega
-                rw [← e] at this; omega
-              have hoa := ((mem_auth z a).mp ha).2
-              have : z.occluded a.name = true :=
-                (occluded_iff z _).mpr ⟨cn, ((mem_auth z cn).mp hcn).1, hcut, hcnn ▸ hpw, hcnn ▸ hnew⟩
-              rw [hoa] at this; cases this
-          cases hent : z.isENT q with
-          | true => exact answerClass_ent z q t hq (gap.ne_apex hz) hocc gap.find_none hent
-          | false =>
-            rw [answerClass_wild z q t hq (gap.ne_apex hz) hocc gap.find_none hent hfw]
-            exact answerAt_nodata a t (hat ▸ h1) (hat ▸ h2)
         · cases hok
+        · rename_i hmisq
+          simp only at hok
+          split at hok
+          · rename_i w hwfind
+            have hwm := List.mem_of_find?_eq_some hwfind
+            have hwo : w.owner = closestEncloserFromNSEC q c ++ [star] := by simpa using List.find?_some hwfind
+            obtain ⟨h1, h2, _⟩ := nodataBitmap_ok hok
+            obtain ⟨a, ha, han, hat⟩ := (hg w hwm).node
+            have hfw : z.find (z.closestEncloser q ++ [star]) = some a := by
+              rw [hce, ← hwo, ← han]; exact find_of_mem hz ha
+            have hmis := nsecMisusedFor_false (by simpa using hmisq)
+            have hocc : z.occluded q = false := by
+              cases ho : z.occluded q with
+              | false => rfl
+              | true =>
+                exfalso
+                obtain ⟨cn, hcn, hcnn, hcut, hpre, hne⟩ := gap.occluded hz ho
+                have hty := (hg c hcm).types_of_node hz hcn hcnn
+                exact hmis ⟨(isStrictSub_iff q c.owner).mpr ⟨hpre, hne⟩, hty ▸ hcut⟩
+            cases hent : z.isENT q with
+            | true => exact answerClass_ent z q t hq (gap.ne_apex hz) hocc gap.find_none hent
+            | false =>
+              rw [answerClass_wild z q t hq (gap.ne_apex hz) hocc gap.find_none hent hfw]
+              exact answerAt_nodata a t (hat ▸ h1) (hat ▸ h2)
+          · cases hok
 
 /-- **`VerifyDelegationNSEC` over genuine records** (full strength). -/
 theorem delegation_core {z : Zone} {s : List Nsec} (hg : ∀ r ∈ s, Genuine z r) {d : Name}
@@ -1334,12 +1362,6 @@ theorem classify_absent_gap {z : Zone} (hz : z.WF) {es : List Entry} (hes : ∀ 
   rcases hst with ⟨hst, _⟩ | ⟨_, hs⟩
   · cases hst
   · exact hs
-
-theorem InGap.not_ent {z : Zone} (hz : z.WF) {o n q : Name} (gap : InGap z o n q) (hq : z.apex <+: q)
-    (hsub : isStrictSub n q = false) : z.isENT q = false := by
-  cases he : z.isENT q with
-  | false => rfl
-  | true => rw [(gap.isENT_iff hz hq).mp he] at hsub; cases hsub
 
 /-- **Soundness of `evaluateAggressiveNSECEntries` over genuine records.** -/
 theorem evaluateEntries_sound {z : Zone} (hz : z.WF) {es : List Entry} (hes : ∀ e ∈ es, Genuine z e.r)
